@@ -1779,13 +1779,24 @@ def find_free_fn(text, fn):
     return text[p0 + 1:p1], text[b0:b1 + 1]
 
 
+LTARGETS += [
+    dict(ns="Values", file="iter/wrappers/values.rs", impl=r"Iterator for ConIterValues", fns=["next"], self_ty="ValuesH"),
+    dict(ns="IdsAndValues", file="iter/wrappers/ids_and_values.rs", impl=r"Iterator for ConIterIdsAndValues", fns=["next"], self_ty="ValuesH"),
+]
+
+
 def main_loops():
     chunks, report = [], []
     for t in LTARGETS:
         text = strip_comments(open(os.path.join(SRC, t["file"])).read())
         for fn in t["fns"]:
-            params, body = find_free_fn(text, fn)
+            if t.get("impl"):
+                params, body = find_fn(text, t["impl"], fn)
+            else:
+                params, body = find_free_fn(text, fn)
             _, plist = param_list(params, t.get("params", {}))
+            if t.get("self_ty"):
+                plist = [("self", t["self_ty"])] + plist
             ast = P(tokenize(body) + [("eof", "")]).block()
             scope = [(n, ty) for (n, ty) in plist]
             lets = dict(t.get("lets", {}))
@@ -1806,6 +1817,11 @@ def main_loops():
         disp.append('("%s", "%s")' % (m, re.sub(r"\s+", "", mm.group(1)) if mm else "?"))
     facts = ("/-- how `ConcurrentIter::{for_each, enumerate_for_each, fold}` (src/iter/con_iter.rs) call the functions above -/\n"
              "def Loops.dispatch : List (String × String) := [%s]\n" % ", ".join(disp))
+    for (ns, f, pat) in (("Values", "iter/wrappers/values.rs", r"Iterator for ConIterValues"),
+                         ("IdsAndValues", "iter/wrappers/ids_and_values.rs", r"Iterator for ConIterIdsAndValues")):
+        names = impl_fn_names(strip_comments(open(os.path.join(SRC, f)).read()), pat)
+        facts += ("\n/-- the methods of `Iterator` the wrapper overrides (every other one is std's default, built on `next`) -/\n"
+                  "def %s.iterator_overrides : List String := [%s]\n" % (ns, ", ".join('"%s"' % n for n in names)))
     body = ("/- GENERATED by tools/rs2lean.py from the Rust sources on every run -- do not edit. -/\n"
             "import Orx.RS.Loop\nset_option linter.unusedVariables false\nnamespace Orx.GenL\nopen Orx Orx.RSL\n"
             "open Orx.RS (Next NextChunk Span)\n\n" + "\n".join(chunks) + "\n" + facts + "\nend Orx.GenL\n")
